@@ -23,12 +23,13 @@ for c in cases:
     n, workers, kind, sleeps = c["n"], c["workers"], c["kind"], c["sleeps"]
     try:
         if kind == "list":
-            r = parallel([delayed(job)(i, 1000 + i, sleeps[i]) for i in range(n)], n_jobs=workers)
-            out.append({"result": [list(x) for x in r]})
+            kw = {} if c.get("return_as") is None else {"return_as": c["return_as"]}
+            r = parallel([delayed(job)(i, 1000 + i, sleeps[i]) for i in range(n)], n_jobs=workers, **kw)
+            out.append({"result": [list(x) for x in list(r)]})
         else:
-            keys = c["keys"]
-            r = parallel({k: delayed(job)(k, 1000 + k, sleeps[j]) for j, k in enumerate(keys)}, n_jobs=workers)
-            out.append({"result": [[k, list(v)] for k, v in r.items()]})
+            keys = [tuple(k) if isinstance(k, list) else k for k in c["keys"]]
+            r = parallel({k: delayed(job)(j, 1000 + j, sleeps[j]) for j, k in enumerate(keys)}, n_jobs=workers)
+            out.append({"result": [[list(k) if isinstance(k, tuple) else k, list(v)] for k, v in r.items()]})
     except Exception as e:
         out.append({"error": f"{type(e).__name__}: {e}"})
 print("RESULT" + json.dumps(out))
@@ -61,8 +62,18 @@ def run(ck):
             c = {"n": n, "workers": rng.choice([1, 2, 3, 4, 8, 16]), "kind": kind,
                  "sleeps": [rng.choice([0, 0, 1, 3, 8, 20]) for _ in range(n)]}
             if kind == "dict":
-                keys = rng.sample(range(1000), n)
+                # keys of several hashable kinds; -1 and -2 (equal hashes in CPython) are both drawn often
+                pool = list(range(-6, 40)) + [f"k{i}" for i in range(30)] + [[a, b] for a in range(-2, 4) for b in range(3)]
+                keys = rng.sample(pool, min(n, len(pool)))
+                if n >= 2 and rng.random() < 0.5:
+                    keys[0], keys[1] = -1, -2
+                    keys = [k for i, k in enumerate(keys) if k not in (-1, -2) or i < 2]
+                    rng.shuffle(keys)
                 c["keys"] = keys
+                c["n"] = n = len(keys)
+                c["sleeps"] = c["sleeps"][:n]
+            else:
+                c["return_as"] = rng.choice([None, None, "list", "generator"])
             cases.append(c)
         groups.append((seed, cases))
     exprs, keys_ = [], []
@@ -70,14 +81,14 @@ def run(ck):
         res = run_driver(cases, seed)
         for c, r in zip(cases, res):
             ck.case((seed, json.dumps(c)), nontrivial=c["n"] >= 2 and c["workers"] >= 2,
-                    sample={"n": c["n"], "workers": c["workers"], "kind": c["kind"], "schedule_seed": seed})
+                    sample={"n": c["n"], "workers": c["workers"], "kind": c["kind"], "return_as": c.get("return_as"), "schedule_seed": seed})
             if "error" in r:
                 bad = r["error"]
             elif c["kind"] == "list":
                 exp = [[i, 1000 + i] for i in range(c["n"])]
                 bad = None if r["result"] == exp else f"result {r['result'][:6]}... expected position i to hold job i's result"
             else:
-                exp = [[k, [k, 1000 + k]] for k in c["keys"]]
+                exp = [[k, [j, 1000 + j]] for j, k in enumerate(c["keys"])]
                 bad = None if r["result"] == exp else "dict result does not map each key (in input order) to its own job's result"
             if bad:
                 ck.failing_input({"case": c, "schedule_seed": seed, "why": bad, "impl": r}, what="parallel(): " + bad)
@@ -96,7 +107,7 @@ def run(ck):
     if mism and not ck.violations:
         ck.unexplained("broken-correspondence", {"mismatches": [str(x) for x in mism[:3]]}, what="model collect differs from job order")
     return ck.finish(
-        rule="real accelforge.util.parallel.parallel in a subprocess: job lists of length 0-64 with random sleeps (0-20 ms), worker counts 1-16, list and dict inputs, "
+        rule="real accelforge.util.parallel.parallel in a subprocess: job lists of length 0-64 with random sleeps (0-20 ms), worker counts 1-16, list inputs with return_as None / 'list' / 'generator', dict inputs keyed by ints (incl. -1 and -2, equal hashes), strings and tuples, "
              "natural scheduling plus hook-forced reversed / rotated / shuffled submission and arrival orders; non-trivial = >=2 jobs on >=2 workers",
         trusted=TRUSTED,
         extra={"source_fingerprint": [common.fingerprint("accelforge/util/parallel.py", ["parallel", "_dict_job"])]})
@@ -105,7 +116,7 @@ def run(ck):
 def replay(ck, data):
     r = run_driver([data["case"]], data.get("schedule_seed"))[0]
     c = data["case"]
-    exp = [[i, 1000 + i] for i in range(c["n"])] if c["kind"] == "list" else [[k, [k, 1000 + k]] for k in c["keys"]]
+    exp = [[i, 1000 + i] for i in range(c["n"])] if c["kind"] == "list" else [[k, [j, 1000 + j]] for j, k in enumerate(c["keys"])]
     if r.get("result") != exp:
         print("VIOLATION property=C32 replay=<replayed>")
         return 1
